@@ -8,7 +8,7 @@ from vf.ref import recheck as refcheck
 
 ID = "C16"
 LEVEL = "exploration"
-TECHNIQUE = "Hypothesis-generated payloads of non-zero bytes x own/reference metafiles x 0..5 damages; differential of Checker.results() and of the per-piece verdict stream of Checker.iter_hashes() against an independent reference verifier"
+TECHNIQUE = "Hypothesis-generated payloads of non-zero bytes x own/reference metafiles x 0..5 damages; differential of Checker.results() and of the per-piece verdict stream of Checker.iter_hashes() against an independent reference verifier ; optional prime run; deterministic large-piece grid"
 RULE = ("Cases: as C04 (non-zero payload bytes, so no absent region is all-zero) with 0..5 damages. Oracle: reference verifier (v1: "
         "pieces of the virtual stream with pads and absent bytes as zeros; v2/hybrid: per-file pieces hashed by the BEP 52 piece rule); "
         "|Checker.results() - 100*sum(size of verifying pieces)/total| <= 1e-9, and the multiset of (verdict, size) pairs yielded by "
